@@ -16,7 +16,7 @@ LEVEL_TEXT = (
     'inverse permutations with matching endianness. OS timing, datagram loss and real sockets are out '
     'of scope.')
 
-FLOORS = {'C17-R1': 2, 'C17-R2': 1, 'C17-R3': 3, 'C17-R4': 2, 'C17-R5': 7, 'C17-R6': 4}
+FLOORS = {'C17-R1': 3, 'C17-R2': 1, 'C17-R3': 3, 'C17-R4': 2, 'C17-R5': 7, 'C17-R6': 4}
 
 HANDLERS = ('Actor::on_msg', 'Actor::on_timeout', 'Actor::on_random')
 
@@ -63,6 +63,20 @@ def r1_r2_r3_r5a(ctx, F):
               bad='actor::spawn: a second handler (%s) can run before the commands of the previous one were '
                   'applied: a timer that the first handler cancels or re-arms still fires from a stale snapshot' %
                   sorted(set(h2.short.split('::')[-1] + '@' + h2.span.split(':')[-1] for h2 in again)))
+    # the actor listens on exactly the address its Id encodes (its datagrams also leave from there, so the
+    # peer's on_msg sees this actor's Id as src)
+    from common import capture_origin
+    binds = b.calls_to('UdpSocket::bind')
+    okb = len(binds) == 1
+    if okb:
+        pb_, pv_ = capture_origin(F, b, b.val(binds[0].args[0]), through=('Clone::clone',))
+        pc_ = pb_.call_at(pv_.key) if pv_.kind == 'call' and not pv_.projs else None
+        okb = pc_ is not None and pc_.is_('From::from') and pc_.targs and 'SocketAddrV4' in pc_.targs[0]
+    ctx.check(okb, 'C17-R1', 'binds-own-address', b,
+              good='the socket is bound to SocketAddrV4::from(id)',
+              bad='actor::spawn: the actor\'s socket is not bound to the address its Id encodes (SocketAddrV4::from(id)): '
+                  'on_msg runs for datagrams that were not sent to this actor\'s address, and the src its peers see is '
+                  'not its Id')
     # R2 state threading
     roots = set()
     for h in hs:
